@@ -30,3 +30,8 @@ Definition write_blob (old : option (list byte)) (new : list byte) : list byte :
   | Some o => if Nat.eqb (length new) (length o) then overwrite o new
               else overwrite (resize o (length new)) new
   end.
+
+(* the dataset after a sequence of checkpoint writes (each payload already pickled to bytes),
+   starting from a file that may or may not hold an older blob *)
+Definition file_after (old : option (list byte)) (blobs : list (list byte)) : option (list byte) :=
+  fold_left (fun f b => Some (write_blob f b)) blobs old.
